@@ -70,7 +70,7 @@ func (f *fakeChain) GetHeader(hash common.Hash, number uint64) *types.Header {
 	}
 	return h
 }
-func (f *fakeChain) GetHeaderByNumber(number uint64) *types.Header { return nil }
+func (f *fakeChain) GetHeaderByNumber(number uint64) *types.Header  { return nil }
 func (f *fakeChain) GetHeaderByHash(hash common.Hash) *types.Header { return f.headers[hash] }
 func (f *fakeChain) GetBlock(hash common.Hash, number uint64) *types.Block {
 	b := f.blocks[hash]
@@ -185,7 +185,7 @@ func bigHex(b *big.Int) string {
 // ---------------------------------------------------------------- independent statement of the rules (direct oracle)
 
 var (
-	two63m1 = new(big.Int).SetUint64(1<<63 - 1)
+	two63m1   = new(big.Int).SetUint64(1<<63 - 1)
 	mainnetID = uint64(61717561)
 )
 
@@ -207,6 +207,12 @@ func floorDiv(a, b *big.Int) *big.Int { // b > 0
 // documentation, not from the control flow of calcDifficultyHFX.  time is the full timestamp.
 // panics=true: the specification has no value there (parent not after grandparent under HF10).
 func specDifficulty(cfg *params.ChainConfig, t *big.Int, p, gp *types.Header) (d *big.Int, panics bool) {
+	d, panics, _ = specDifficultyAlgo(cfg, t, p, gp)
+	return
+}
+
+// specDifficultyAlgo also names the rule in force: grandparent | reset | simple | homestead
+func specDifficultyAlgo(cfg *params.ChainConfig, t *big.Int, p, gp *types.Header) (d *big.Int, panics bool, algo string) {
 	next := new(big.Int).Add(p.Number, big.NewInt(1))
 	mainnet := cfg.ChainId.Uint64() == mainnetID
 	min, div, limit := int64(99999999), int64(2048), int64(240)
@@ -254,68 +260,96 @@ func specDifficulty(cfg *params.ChainConfig, t *big.Int, p, gp *types.Header) (d
 	switch {
 	case active(cfg, 10, next):
 		if gp == nil {
-			return new(big.Int).Set(pd), false
+			return new(big.Int).Set(pd), false, "grandparent"
 		}
 		if p.Time.Cmp(gp.Time) <= 0 {
-			return nil, true
+			return nil, true, "grandparent"
 		}
 		dv := int64(16)
 		if active(cfg, 8, p.Number) {
 			dv = 1024
 		}
-		return bmax(homestead(gp.Difficulty, new(big.Int).Sub(p.Time, gp.Time), 240, dv), 46039386), false
+		return bmax(homestead(gp.Difficulty, new(big.Int).Sub(p.Time, gp.Time), 240, dv), 46039386), false, "grandparent"
 	case isForkBlock(cfg, 8, next):
-		return big.NewInt(46039386), false
+		return big.NewInt(46039386), false, "reset"
 	case isForkBlock(cfg, 6, next), isForkBlock(cfg, 7, next):
-		return simple(), false
+		return simple(), false, "simple"
 	case isForkBlock(cfg, 5, next):
-		return big.NewInt(46039386), false
+		return big.NewInt(46039386), false, "reset"
 	case isForkBlock(cfg, 3, next):
-		return big.NewInt(30959185800), false
+		return big.NewInt(30959185800), false, "reset"
 	case active(cfg, 2, next):
-		return simple(), false
+		return simple(), false, "simple"
 	case isForkBlock(cfg, 1, next):
-		return big.NewInt(100001792), false
+		return big.NewInt(100001792), false, "reset"
 	default:
 		x := homestead(pd, new(big.Int).Sub(t, p.Time), 10, 2048)
 		if mainnet {
 			if active(cfg, 1, next) {
-				return bmax(x, 100001792), false
+				return bmax(x, 100001792), false, "homestead"
 			}
-			return bmax(x, 99999999), false
+			return bmax(x, 99999999), false, "homestead"
 		}
-		return x, false
+		return x, false, "homestead"
 	}
 }
 
-// rulesOK: the conjunction in the property statement (seal aside).  Returns the name of the first
-// clause that fails ("" when all hold).
-func rulesOK(cfg *params.ChainConfig, now int64, h, p, gp *types.Header) string {
+// rulesFail: the conjunction in the property statement (seal aside), clause by clause: the names of ALL
+// clauses that fail (empty when the header satisfies the rules).
+func rulesFail(cfg *params.ChainConfig, now int64, h, p, gp *types.Header) []string {
+	var f []string
 	if new(big.Int).Sub(h.Number, p.Number).Cmp(big.NewInt(1)) != 0 {
-		return "number"
+		f = append(f, "number")
 	}
 	if h.Time.Cmp(p.Time) <= 0 {
-		return "time-not-later"
+		f = append(f, "time-not-later")
 	}
 	if h.Time.Cmp(big.NewInt(now+15)) > 0 {
-		return "time-future"
+		f = append(f, "time-future")
 	}
 	if len(h.Extra) > 32 {
-		return "extra"
+		f = append(f, "extra")
 	}
 	gl, pgl := new(big.Int).SetUint64(h.GasLimit), new(big.Int).SetUint64(p.GasLimit)
 	if h.GasUsed > h.GasLimit || gl.Cmp(two63m1) > 0 || h.GasLimit < 5000 {
-		return "gas"
+		f = append(f, "gas")
 	}
 	delta := new(big.Int).Abs(new(big.Int).Sub(pgl, gl))
 	if delta.Cmp(new(big.Int).Div(pgl, big.NewInt(1024))) >= 0 {
-		return "gas-delta"
+		f = append(f, "gas-delta")
 	}
 	d, pn := specDifficulty(cfg, h.Time, p, gp)
 	if pn || d.Cmp(h.Difficulty) != 0 {
-		return "difficulty"
+		f = append(f, "difficulty")
 	}
-	return ""
+	return f
+}
+
+// rulesOK: "" when all clauses hold, else the failing clauses joined by '+'
+func rulesOK(cfg *params.ChainConfig, now int64, h, p, gp *types.Header) string {
+	return strings.Join(rulesFail(cfg, now, h, p, gp), "+")
+}
+
+var two64 = new(big.Int).Lsh(big.NewInt(1), 64)
+
+// classifyAcceptedInvalid: an ACCEPTED header fails exactly the clauses `fails` of the rules.  Returns the stable
+// signature of the known mechanism that explains exactly this set of failing clauses, or "" (unknown: the caller
+// reports the concrete case).  Each mechanism is recognised by its own precise footprint and by nothing else.
+func classifyAcceptedInvalid(cfg *params.ChainConfig, fails string, h, p, gp *types.Header, uncle bool) (sig, what string) {
+	switch {
+	case uncle && fails == "time-future":
+		// the clock rule, and only the clock rule, is skipped for uncles
+		return "uncle-future-timestamp-accepted", "an uncle header whose timestamp is more than 15 s ahead of the clock, and which satisfies every other rule, is accepted (verifyHeader skips the future check for uncles; only Time <= 2^256-1 is required)"
+	case uncle && fails == "time-future+difficulty" && h.Time.Cmp(two64) >= 0:
+		// the difficulty is right for Time mod 2^64 and wrong for the real timestamp
+		trunc := new(big.Int).Mod(h.Time, two64)
+		if d, pn := specDifficulty(cfg, trunc, p, gp); !pn && d.Cmp(h.Difficulty) == 0 && trunc.Cmp(p.Time) > 0 {
+			return "uncle-timestamp-truncated-to-uint64", "an uncle header with Time >= 2^64 is accepted with the difficulty of Time mod 2^64 (verifyHeader passes header.Time.Uint64() to CalcDifficulty)"
+		}
+	case !uncle && fails == "gas-delta" && p.GasLimit >= 1<<63:
+		return "gaslimit-int64-wrap-parent-above-2^63", "parent gas limit >= 2^63 (only a genesis block can have it): int64(parent.GasLimit)-int64(header.GasLimit) wraps and a gas limit outside parent/1024 is accepted"
+	}
+	return "", ""
 }
 
 // ---------------------------------------------------------------- generators
@@ -430,13 +464,175 @@ func heightsOf(cfg *params.ChainConfig, r *vh.RNG) []int64 {
 	return out
 }
 
+// ---------------------------------------------------------------- 0. directed cases
+
+// directed: one fixed case per known defect of the unchanged tree, run on every seed through the same
+// checkers (and hence the same mechanism-specific classification) as the generated cases.
+func (e *env) directed() {
+	c := e.c
+	saved := c.Rng
+	c.Rng = vh.NewRNG(0xC13D1) // fixed: the directed cases do not depend on -seed
+	defer func() { c.Rng = saved }()
+	r := c.Rng
+	now := time.Now().Unix()
+
+	// (1) fall-through to calcDifficultyStarting: built-in testnet2 / testnet3 (HF5 without HF2)
+	for _, cfg := range []*params.ChainConfig{params.Testnet2ChainConfig, params.Testnet3ChainConfig} {
+		p := baseHeader(r, cfg, 29, 1000000, big.NewInt(46039386), common.Hash{1}, 5000000)
+		e.checkDifficulty("directed", cfg, 1001000, p, nil)
+	}
+	// (2) HF10 grandparent rule: parent not later than grandparent
+	{
+		cfg := customCfg(777, map[int]int64{5: 0, 10: 12})
+		p := baseHeader(r, cfg, 20, 1000000, big.NewInt(46039386), common.Hash{1}, 5000000)
+		gp := baseHeader(r, cfg, 19, 1000000, big.NewInt(46039386), common.Hash{2}, 5000000)
+		e.checkDifficulty("directed", cfg, 1000100, p, gp)
+	}
+	// (3) uncle headers and the clock; (4) uncle timestamp truncated to 64 bits; (5) int64 gas-limit distance
+	{
+		cfg := params.TestnetChainConfig
+		gp := baseHeader(r, cfg, 700, now-5000, big.NewInt(46039386), common.Hash{7}, 4712388)
+		p := child(r, cfg, gp, nil, 100)
+		ch := newChain(cfg)
+		ch.addHeader(gp)
+		ch.addHeader(p)
+		u := child(r, cfg, p, gp, 100)
+		u.Time = big.NewInt(now + 1000000)
+		u.Difficulty, _ = specDifficulty(cfg, u.Time, p, gp)
+		e.checkHeader("directed/uncle-future", ch, u, p, gp, true)
+		u2 := child(r, cfg, p, gp, 50)             // difficulty right for parent+50 ...
+		u2.Time = new(big.Int).Add(two64, u2.Time) // ... and the timestamp 2^64 later
+		e.checkHeader("directed/uncle-time-2^64", ch, u2, p, gp, true)
+
+		g := baseHeader(r, cfg, 0, now-500, big.NewInt(46039386), common.Hash{}, ^uint64(0)) // a genesis block with gas limit 2^64-1
+		ch2 := newChain(cfg)
+		ch2.addHeader(g)
+		h := child(r, cfg, g, nil, 100)
+		h.GasLimit, h.GasUsed = 5000, 0
+		e.checkHeader("directed/parent-gaslimit>=2^63", ch2, h, g, nil, false)
+	}
+	// (6) VerifyHeaders on a batch that starts at number 0 with an unknown parent
+	{
+		cfg := params.TestChainConfig
+		base, seg := buildChain(r, cfg, 1, 3, now)
+		seg = append([]*types.Header{base[0]}, seg...)
+		e.checkBatch("directed-from-genesis", "test", newChain(cfg), seg, make([]bool, len(seg)), e.eng, 0)
+	}
+	// (7) the hard-coded uncle exceptions on a chain that is not mainnet
+	{
+		cfg := params.TestnetChainConfig
+		base, seg := buildChain(r, cfg, 700, 4, now)
+		all := append(append([]*types.Header{}, base...), seg...)
+		blocks := map[int]*types.Block{}
+		for k := 1; k < len(all); k++ {
+			blocks[k] = types.NewBlockWithHeader(all[k]).WithBody(nil, nil)
+		}
+		hdr := child(r, cfg, all[len(all)-1], all[len(all)-2], 100)
+		junk := child(r, cfg, all[2], all[1], 50)
+		junk.ParentHash = common.HexToHash("0x6b818656fb5059ab4dd070e2c2822a7774065090e74ff31515764212c88e2923")
+		junk.Number = big.NewInt(14003)
+		junk.Difficulty = big.NewInt(1)
+		e.checkUncles("directed/whitelist-parent", cfg, all, blocks, hdr, []*types.Header{junk}, false)
+	}
+}
+
 // ---------------------------------------------------------------- 1. CalcDifficulty lattice
+
+// monotone: the defined forks are scheduled in increasing order of their index
+func monotone(cfg *params.ChainConfig) bool {
+	var last *big.Int
+	for k := 1; k <= 10; k++ {
+		if v := cfg.HF[k]; v != nil {
+			if last != nil && v.Cmp(last) < 0 {
+				return false
+			}
+			last = v
+		}
+	}
+	return true
+}
+
+// checkDifficulty: CalcDifficulty on one point against the model, the fork table and the minimum
+func (e *env) checkDifficulty(name string, cfg *params.ChainConfig, t uint64, p, gp *types.Header) {
+	c := e.c
+	ct := cfgTok(cfg)
+	next := p.Number.Int64() + 1
+	var got *big.Int
+	obs := ""
+	pan, pv := vh.CatchPanic(func() { got = aquahash.CalcDifficulty(cfg, t, p, gp) })
+	if pan {
+		obs = "panic"
+	} else {
+		obs = "ok " + bigHex(got)
+	}
+	cas := fmt.Sprintf("calcdiff %s %d %s %s", ct, t, hdrTok(p, 0), hdrTok(gp, 0))
+	key := ""
+	if !pan {
+		key = fmt.Sprintf("%s/%d/%s/%d", name, next, p.Difficulty, int64(t)-p.Time.Int64())
+	}
+	c.Eval("difficulty/"+name, key)
+	c.Correspond("CalcDifficulty~calc_difficulty", cas, obs, e.m.Ask(cas))
+	// direct oracle: the table specification
+	want, wp, algo := specDifficultyAlgo(cfg, new(big.Int).SetUint64(t), p, gp)
+	nx := big.NewInt(next)
+	switch {
+	case pan && wp && fmt.Sprint(pv) == "invalid code" && active(cfg, 10, nx) && gp != nil && p.Time.Cmp(gp.Time) <= 0:
+		c.Violate("calcdifficulty-grandparent-panic", "CalcDifficulty (HF10 grandparent algorithm) panics (\"invalid code\") when parent.Time <= grandparent.Time",
+			map[string]string{"case": cas})
+		return
+	case pan:
+		c.Violate("calcdifficulty-panic/"+cas, fmt.Sprintf("CalcDifficulty panics: %v", pv), map[string]string{"case": cas})
+		return
+	case wp || want.Cmp(got) != 0:
+		c.Violate("difficulty-spec/"+cas, "CalcDifficulty differs from the fork table", map[string]string{"case": cas, "got": got.String(), "want": fmt.Sprint(want)})
+		return
+	}
+	// never below the active minimum (the minimum of the highest of HF1/HF3/HF5 active at the block)
+	if p.Difficulty.Sign() < 0 {
+		return
+	}
+	am := int64(99999999)
+	if active(cfg, 1, nx) {
+		am = 100001792
+	}
+	if active(cfg, 3, nx) {
+		am = 30959185800
+	}
+	if active(cfg, 5, nx) {
+		am = 46039386
+	}
+	if got.Cmp(big.NewInt(am)) >= 0 {
+		return
+	}
+	c.Count("below-active-minimum/" + algo)
+	rep := map[string]string{"config": name, "case": cas, "got": got.String(), "minimum": fmt.Sprint(am), "rule": algo}
+	switch algo {
+	case "simple":
+		c.Violate("difficulty-below-minimum/"+cas, "difficulty below the active minimum under the simple algorithm", rep)
+	case "reset":
+		if monotone(cfg) {
+			c.Violate("difficulty-below-minimum/"+cas, "fork-block reset below the active minimum on an ordered schedule", rep)
+		}
+	case "grandparent":
+		if gp != nil && active(cfg, 5, nx) {
+			c.Violate("difficulty-below-minimum/"+cas, "difficulty below the active minimum under the grandparent algorithm", rep)
+		}
+	case "homestead":
+		// reached only when HF2 is not active at the block
+		if active(cfg, 3, nx) || active(cfg, 5, nx) {
+			c.Violate("difficulty-below-active-minimum-no-hf2", "fork map activates HF3/HF5 without HF2 (built-in testnet2/testnet3): calcDifficultyHFX falls through to calcDifficultyStarting/HF1, which ignore the minimum selected for the active fork",
+				rep)
+		} else if cfg.ChainId.Uint64() == mainnetID {
+			c.Violate("difficulty-below-minimum/"+cas, "difficulty below the genesis/HF1 minimum on the mainnet chain id", rep)
+		}
+		// other chain ids before HF2/HF3/HF5: "testnet no minimum" is the documented rule
+	}
+}
 
 func (e *env) difficultyLattice() {
 	c := e.c
 	for _, nc := range allConfigs(c.Rng) {
 		cfg := nc.cfg
-		ct := cfgTok(cfg)
 		for _, next := range heightsOf(cfg, c.Rng) {
 			mins := []int64{99999999, 100001792, 30959185800, 46039386}
 			diffs := []*big.Int{big.NewInt(0), big.NewInt(1), big.NewInt(2047), big.NewInt(2048), big.NewInt(131072),
@@ -462,66 +658,7 @@ func (e *env) difficultyLattice() {
 						gdt := []int64{1, 239, 240, 241, 479, 480, 24000, 0, -3}[c.Rng.Intn(9)]
 						gp = baseHeader(c.Rng, cfg, next-2, pt-gdt, diffs[c.Rng.Intn(len(diffs))], common.Hash{2}, 5000000)
 					}
-					t := uint64(pt + dt)
-					var got *big.Int
-					obs := ""
-					pan, pv := vh.CatchPanic(func() { got = aquahash.CalcDifficulty(cfg, t, p, gp) })
-					if pan {
-						obs = "panic"
-					} else {
-						obs = "ok " + bigHex(got)
-					}
-					cas := fmt.Sprintf("calcdiff %s %d %s %s", ct, t, hdrTok(p, 0), hdrTok(gp, 0))
-					key := ""
-					if !pan {
-						key = fmt.Sprintf("%s/%d/%s/%d", nc.name, next, pd, dt)
-					}
-					c.Eval("difficulty/"+nc.name, key)
-					c.Correspond("CalcDifficulty~calc_difficulty", cas, obs, e.m.Ask(cas))
-					// direct oracle: the table specification
-					want, wp := specDifficulty(cfg, new(big.Int).SetUint64(t), p, gp)
-					if wp != pan || (!pan && want.Cmp(got) != 0) {
-						if pan {
-							c.Violate("calcdifficulty-panic/"+cas, fmt.Sprintf("CalcDifficulty panics: %v", pv), map[string]string{"case": cas})
-						} else {
-							c.Violate("difficulty-spec/"+cas, "CalcDifficulty differs from the fork table", map[string]string{"case": cas, "got": got.String(), "want": fmt.Sprint(want)})
-						}
-					} else if pan {
-						c.Violate("calcdifficulty-grandparent-panic", "CalcDifficulty (HF10 grandparent algorithm) panics (\"invalid code\") when parent.Time <= grandparent.Time: "+fmt.Sprint(pv),
-							map[string]string{"case": cas})
-					}
-					// never below the active minimum (the `min` of the active fork)
-					if !pan && pd.Sign() >= 0 && !(active(cfg, 10, big.NewInt(next)) && gp == nil) {
-						am := int64(99999999)
-						nx := big.NewInt(next)
-						if active(cfg, 1, nx) {
-							am = 100001792
-						}
-						if active(cfg, 3, nx) {
-							am = 30959185800
-						}
-						if active(cfg, 5, nx) {
-							am = 46039386
-						}
-						if got.Cmp(big.NewInt(am)) < 0 {
-							c.Count("below-active-minimum")
-							if cfg.ChainId.Uint64() == mainnetID && !active(cfg, 2, nx) && !active(cfg, 10, nx) && (active(cfg, 3, nx) || active(cfg, 5, nx)) {
-								c.Violate("difficulty-below-active-minimum-no-hf2", "fork map activates HF3/HF5 without HF2 (mainnet chain id): calcDifficultyHFX falls through to calcDifficultyStarting/HF1, which apply the genesis/HF1 minimum instead of the selected one",
-									map[string]string{"config": nc.name, "case": cas, "got": got.String(), "minimum": fmt.Sprint(am)})
-							} else if cfg.ChainId.Uint64() == mainnetID {
-								c.Violate("difficulty-below-minimum/"+cas, "difficulty below the active minimum", map[string]string{"case": cas, "got": got.String()})
-							} else if active(cfg, 2, nx) {
-								c.Violate("difficulty-below-minimum/"+cas, "difficulty below the active minimum in the simple-algorithm era", map[string]string{"case": cas, "got": got.String()})
-							} else {
-								// non-mainnet chain before HF2: calcDifficultyStarting/HF1 have "no minimum" by design; with HF5 active but no HF2
-								// (testnet2, testnet3) the HF5 minimum that calcDifficultyHFX selects is never applied.
-								if active(cfg, 5, nx) || active(cfg, 3, nx) {
-									c.Violate("difficulty-below-active-minimum-no-hf2", "fork map activates HF3/HF5 without HF2: calcDifficultyHFX falls through to calcDifficultyStarting, which ignores the selected minimum (built-in testnet2/testnet3 schedules)",
-										map[string]string{"config": nc.name, "case": cas, "got": got.String(), "minimum": fmt.Sprint(am)})
-								}
-							}
-						}
-					}
+					e.checkDifficulty(nc.name, cfg, uint64(pt+dt), p, gp)
 				}
 			}
 		}
@@ -552,7 +689,9 @@ func muts(r *vh.RNG) []mut {
 		{"time=2^64+k", func(h, p *types.Header, now int64) {
 			h.Time = new(big.Int).Add(new(big.Int).Lsh(big.NewInt(1), 64), new(big.Int).Add(p.Time, big.NewInt(int64(1+r.Intn(400)))))
 		}},
-		{"time=2^256-1", func(h, p *types.Header, now int64) { h.Time = new(big.Int).Sub(new(big.Int).Lsh(big.NewInt(1), 256), big.NewInt(1)) }},
+		{"time=2^256-1", func(h, p *types.Header, now int64) {
+			h.Time = new(big.Int).Sub(new(big.Int).Lsh(big.NewInt(1), 256), big.NewInt(1))
+		}},
 		{"time=2^256", func(h, p *types.Header, now int64) { h.Time = new(big.Int).Lsh(big.NewInt(1), 256) }},
 		{"diff+1", func(h, p *types.Header, now int64) { bump(h, 1) }},
 		{"diff-1", func(h, p *types.Header, now int64) { bump(h, -1) }},
@@ -617,14 +756,13 @@ func (e *env) checkHeader(class string, ch *fakeChain, h, p, gp *types.Header, u
 	accepted := obs == "ok"
 	if accepted != (fail == "") {
 		rep := map[string]string{"case": cas, "observed": obs, "rules_ok_fails_at": fail, "uncle": u}
-		switch {
-		case accepted && uncle && fail == "time-future":
-			c.Violate("uncle-future-timestamp-accepted", "an uncle header whose timestamp is more than 15 s ahead of the clock is accepted (verifyHeader skips the future check for uncles; only Time <= 2^256-1 is required)", rep)
-		case accepted && uncle && fail == "difficulty" && h.Time.BitLen() > 64:
-			c.Violate("uncle-timestamp-truncated-to-uint64", "an uncle header with Time >= 2^64 is accepted: its difficulty is checked against Time mod 2^64 (header.Time.Uint64())", rep)
-		default:
-			c.Violate("header-rules/"+cas, "verdict of verifyHeader differs from the rules of the property statement", rep)
+		if accepted {
+			if sig, what := classifyAcceptedInvalid(ch.cfg, fail, h, p, egp, uncle); sig != "" {
+				c.Violate(sig, what, rep)
+				return
+			}
 		}
+		c.Violate("header-rules/"+cas, "verdict of verifyHeader differs from the rules of the property statement", rep)
 	}
 }
 
@@ -691,28 +829,8 @@ func (e *env) headerRules() {
 			h := child(c.Rng, cfg, p, nil, 100)
 			h.GasLimit, h.GasUsed = hgl, 0
 			c.Count("parent-gaslimit>=2^63")
-			e.checkHeaderWrap("header/parent-gaslimit>=2^63", ch, h, p)
+			e.checkHeader("header/parent-gaslimit>=2^63", ch, h, p, nil, false)
 		}
-	}
-}
-
-// like checkHeader, but a disagreement with the rules is the known int64 wrap class
-func (e *env) checkHeaderWrap(class string, ch *fakeChain, h, p *types.Header) {
-	c := e.c
-	now := time.Now().Unix()
-	var err error
-	pan, _ := vh.CatchPanic(func() { err = e.eng.VerifVerifyHeader(ch, h, p, nil, false, false) })
-	obs := classify(err)
-	if pan {
-		obs = "panic"
-	}
-	cas := fmt.Sprintf("vh %s %d %s %s %s - 0 0", cfgTok(ch.cfg), now, hdrsTok(ch.order, noSeal), hdrTok(h, 0), hdrTok(p, 0))
-	c.Eval(class, "")
-	c.Correspond("verifyHeader~verify_header", cas, obs, e.m.Ask(cas))
-	fail := rulesOK(ch.cfg, now, h, p, nil)
-	if (obs == "ok") != (fail == "") {
-		c.Violate("gaslimit-int64-wrap-parent-above-2^63", "parent gas limit >= 2^63 (only a genesis block can have it): int64(parent.GasLimit)-int64(header.GasLimit) wraps and a gas limit far outside parent/1024 is accepted",
-			map[string]string{"case": cas, "observed": obs, "rules_ok_fails_at": fail})
 	}
 }
 
@@ -756,7 +874,6 @@ func (e *env) batches() {
 			n = 1 + c.Rng.Intn(6)
 		}
 		now := time.Now().Unix()
-		base, seg := buildChain(c.Rng, cfg, start, n, now)
 		// corrupt: nothing / one header / two headers / link
 		kind := []string{"valid", "one-bad", "two-bad", "known-prefix", "seal-fail", "unknown-parent", "no-grandparent", "from-genesis", "from-genesis-broken-link"}[c.Rng.Intn(9)]
 		if strings.HasPrefix(kind, "from-genesis") {
@@ -765,6 +882,7 @@ func (e *env) batches() {
 				n = 2 + c.Rng.Intn(6)
 			}
 		}
+		base, seg := buildChain(c.Rng, cfg, start, n, now)
 		ms := muts(c.Rng)
 		bad := func() {
 			i := c.Rng.Intn(len(seg))
@@ -829,140 +947,210 @@ func (e *env) batches() {
 			ch.addHeader(base[len(base)-1])
 		}
 		seals := make([]bool, len(seg))
-		sb := ""
 		for i := range seals {
 			seals[i] = c.Rng.Chance(50)
-			if seals[i] {
-				sb += "1"
-			} else {
-				sb += "0"
-			}
 		}
-		seal := func(h *types.Header) int {
-			if failNo != 0 && h.Number.Uint64() == failNo {
-				return 1
-			}
-			return 0
+		e.checkBatch(kind, nc.name, ch, seg, seals, eng, failNo)
+	}
+}
+
+// workerParents: the parent / grandparent verifyHeaderWorker will use for index i (nil when it finds none)
+func workerParents(ch *fakeChain, seg []*types.Header, i int) (p, gp *types.Header) {
+	n0 := seg[0].Number.Uint64()
+	switch {
+	case i == 0:
+		p = ch.GetHeader(seg[0].ParentHash, n0-1)
+		if n0 > 2 && p != nil {
+			gp = ch.GetHeader(p.ParentHash, n0-2)
 		}
-		ct := cfgTok(cfg)
-		// (a) each worker, synchronously (a panic of a worker goroutine would kill the process)
-		workerObs := make([]string, len(seg))
-		anyPanic := false
-		panicVal := ""
-		for try := 0; try < 5; try++ {
-			now = time.Now().Unix()
-			for i := range seg {
-				var err error
-				pan, pv := vh.CatchPanic(func() { err = eng.VerifVerifyHeaderWorker(ch, seg, seals, i) })
-				if pan {
-					workerObs[i] = "panic"
-					anyPanic = true
-					panicVal = fmt.Sprint(pv)
-				} else {
-					workerObs[i] = classify(err)
-				}
-			}
-			if time.Now().Unix() == now {
-				break
-			}
+	case i == 1:
+		p = seg[0]
+		if n0 > 1 {
+			gp = ch.GetHeader(p.ParentHash, n0-1)
 		}
-		chainTok, segTok := hdrsTok(ch.order, seal), hdrsTok(seg, seal)
+	default:
+		if seg[i-1].Hash() == seg[i].ParentHash {
+			p, gp = seg[i-1], seg[i-2]
+		}
+	}
+	return
+}
+
+// checkBatch: one batch through every worker (synchronously), the concurrent VerifyHeaders under GOMAXPROCS 1/2/16,
+// the collector model under random schedules, and one-by-one VerifyHeader.
+func (e *env) checkBatch(kind, cfgName string, ch *fakeChain, seg []*types.Header, seals []bool, eng *aquahash.Aquahash, failNo uint64) {
+	// every verdict in a batch is relative to the wall clock (future-block rule): the whole observation is repeated
+	// when the second ticks over while it runs, and only a stable observation is recorded
+	for try := 0; ; try++ {
+		var acts []func()
+		rec := recorder{
+			corr:  func(n, cas, o, m string) { acts = append(acts, func() { e.c.Correspond(n, cas, o, m) }) },
+			viol:  func(sig, what string, rep interface{}) { acts = append(acts, func() { e.c.Violate(sig, what, rep) }) },
+			eval:  func(cl, key string) { acts = append(acts, func() { e.c.Eval(cl, key) }) },
+			count: func(cl string) { acts = append(acts, func() { e.c.Count(cl) }) },
+		}
+		start := time.Now().Unix()
+		e.checkBatchOnce(rec, kind, cfgName, ch, seg, seals, eng, failNo)
+		if time.Now().Unix() == start || try >= 6 {
+			for _, a := range acts {
+				a()
+			}
+			return
+		}
+	}
+}
+
+type recorder struct {
+	corr  func(name, cas, observed, model string)
+	viol  func(sig, what string, rep interface{})
+	eval  func(class, key string)
+	count func(class string)
+}
+
+func (e *env) checkBatchOnce(c recorder, kind, cfgName string, ch *fakeChain, seg []*types.Header, seals []bool, eng *aquahash.Aquahash, failNo uint64) {
+	rng := e.c.Rng
+	cfg := ch.cfg
+	var now int64
+	sb := ""
+	for i := range seals {
+		if seals[i] {
+			sb += "1"
+		} else {
+			sb += "0"
+		}
+	}
+	seal := func(h *types.Header) int {
+		if failNo != 0 && h.Number.Uint64() == failNo {
+			return 1
+		}
+		return 0
+	}
+	ct := cfgTok(cfg)
+	// (a) each worker, synchronously (a panic of a worker goroutine would kill the process)
+	workerObs := make([]string, len(seg))
+	anyPanic := false
+	panicVals := make([]string, len(seg))
+	for try := 0; try < 5; try++ {
+		now = time.Now().Unix()
 		for i := range seg {
-			if len(seg) > 12 && i > 3 && i < len(seg)-3 && !c.Rng.Chance(20) {
+			var err error
+			pan, pv := vh.CatchPanic(func() { err = eng.VerifVerifyHeaderWorker(ch, seg, seals, i) })
+			if pan {
+				workerObs[i] = "panic"
+				anyPanic = true
+				panicVals[i] = fmt.Sprint(pv)
+			} else {
+				workerObs[i] = classify(err)
+			}
+		}
+		if time.Now().Unix() == now {
+			break
+		}
+	}
+	chainTok, segTok := hdrsTok(ch.order, seal), hdrsTok(seg, seal)
+	for i := range seg {
+		if len(seg) > 12 && i > 3 && i < len(seg)-3 && !rng.Chance(20) {
+			continue
+		}
+		cas := fmt.Sprintf("worker %s %d %s %s %s %d", ct, now, chainTok, segTok, sb, i)
+		c.corr("verifyHeaderWorker~verify_worker", cas, workerObs[i], e.m.Ask(cas))
+	}
+	if anyPanic {
+		c.eval("batch/"+kind+"/worker-panic", "")
+		for i, o := range workerObs {
+			if o != "panic" {
 				continue
 			}
-			cas := fmt.Sprintf("worker %s %d %s %s %s %d", ct, now, chainTok, segTok, sb, i)
-			c.Correspond("verifyHeaderWorker~verify_worker", cas, workerObs[i], e.m.Ask(cas))
-		}
-		if anyPanic && panicVal == "invalid code" {
-			c.Violate("calcdifficulty-grandparent-panic", "a VerifyHeaders worker panics in calcDifficultyGrandparent (HF10 schedules only): the header after one whose timestamp is not later than its parent's is verified against it; the panic is in a goroutine and kills the process",
-				map[string]string{"config": nc.name, "chain": chainTok, "headers": segTok, "workers": strings.Join(workerObs, ",")})
-			c.Eval("batch/"+kind+"/worker-panic-hf10", "")
-			continue
-		}
-		if anyPanic {
-			c.Violate("verifyheaders-worker-nil-parent-panic", "a VerifyHeaders worker dereferences a nil parent (batch whose first header has number 0 and whose parent is unknown, or broken link at index >= 2): the panic is in a goroutine and kills the process",
-				map[string]string{"config": nc.name, "chain": chainTok, "headers": segTok, "workers": strings.Join(workerObs, ","), "panic": panicVal})
-			c.Eval("batch/"+kind+"/worker-panic", "")
-			continue
-		}
-		// (b) the real concurrent VerifyHeaders under several GOMAXPROCS, delivered order = input order
-		want := strings.Join(workerObs, ",")
-		for _, procs := range []int{1, 2, 16} {
-			old := runtime.GOMAXPROCS(procs)
-			var got []string
-			for try := 0; try < 5; try++ {
-				t0 := time.Now().Unix()
-				got = got[:0]
-				abort, results := eng.VerifyHeaders(ch, seg, seals)
-				for range seg {
-					select {
-					case err := <-results:
-						got = append(got, classify(err))
-					case <-time.After(20 * time.Second):
-						got = append(got, "timeout")
-					}
-				}
-				close(abort)
-				if time.Now().Unix() == t0 && t0 == now {
-					break
-				}
-				if t0 != now { // the clock moved since the workers were observed: only the future-block class could differ
-					break
-				}
-			}
-			runtime.GOMAXPROCS(old)
-			// model: the collector under a random schedule
-			sched := randomSchedule(c.Rng, len(seg), procs)
-			cas := fmt.Sprintf("batch %s %d %s %s %s %s", ct, now, chainTok, segTok, sb, sched)
-			c.Correspond("VerifyHeaders~batch_results", cas, strings.Join(got, ",")+"|fin", e.m.Ask(cas))
-			if strings.Join(got, ",") != want {
-				c.Violate("batch-order/"+cas, "VerifyHeaders delivered results differ from the per-index worker results", map[string]string{"case": cas, "got": strings.Join(got, ","), "want": want})
+			p, gp := workerParents(ch, seg, i)
+			rep := map[string]string{"config": cfgName, "chain": chainTok, "headers": segTok, "index": fmt.Sprint(i), "workers": strings.Join(workerObs, ","), "panic": panicVals[i]}
+			switch {
+			case p == nil && seg[0].Number.Sign() == 0 && strings.Contains(panicVals[i], "nil pointer"):
+				// the guard `parent == nil && headers[0].Number != 0` lets a nil parent through when the batch starts at number 0
+				c.viol("verifyheaders-worker-nil-parent-panic", "a VerifyHeaders worker dereferences a nil parent: the batch's first header has number 0, so `parent == nil && headers[0].Number.Uint64() != 0` does not reject the unknown parent (index 0) / the broken link (index >= 2); the panic is in a goroutine and kills the process", rep)
+			case p != nil && gp != nil && panicVals[i] == "invalid code" && active(cfg, 10, new(big.Int).Add(p.Number, big.NewInt(1))) && p.Time.Cmp(gp.Time) <= 0:
+				c.viol("calcdifficulty-grandparent-panic", "a VerifyHeaders worker panics in calcDifficultyGrandparent (HF10 schedules only): the header after one whose timestamp is not later than its parent's is verified against it; the panic is in a goroutine and kills the process", rep)
+			default:
+				c.viol(fmt.Sprintf("worker-panic/%d/%s/%s", i, chainTok, segTok), "a VerifyHeaders worker panics", rep)
 			}
 		}
-		// (c) direct oracle: one-by-one VerifyHeader, inserting accepted headers, reports the same first failure
-		seqCh := ch.clone()
-		seqIdx, seqRes := -1, ""
-		for i, h := range seg {
-			var err error
-			pan, _ := vh.CatchPanic(func() { err = eng.VerifyHeader(seqCh, h, seals[i]) })
-			r := classify(err)
-			if pan {
-				r = "panic"
+		return
+	}
+	// (b) the real concurrent VerifyHeaders under several GOMAXPROCS, delivered order = input order
+	want := strings.Join(workerObs, ",")
+	for _, procs := range []int{1, 2, 16} {
+		old := runtime.GOMAXPROCS(procs)
+		var got []string
+		for try := 0; try < 5; try++ {
+			t0 := time.Now().Unix()
+			got = got[:0]
+			abort, results := eng.VerifyHeaders(ch, seg, seals)
+			for range seg {
+				select {
+				case err := <-results:
+					got = append(got, classify(err))
+				case <-time.After(20 * time.Second):
+					got = append(got, "timeout")
+				}
 			}
-			if r != "ok" {
-				seqIdx, seqRes = i, r
+			close(abort)
+			if time.Now().Unix() == t0 && t0 == now {
 				break
 			}
-			seqCh.addHeader(h)
-		}
-		bIdx, bRes := -1, ""
-		for i, r := range workerObs {
-			if r != "ok" {
-				bIdx, bRes = i, r
+			if t0 != now { // the clock moved since the workers were observed: only the future-block class could differ
 				break
 			}
 		}
-		casS := fmt.Sprintf("seq %s %d %s %s %s", ct, now, chainTok, segTok, sb)
-		so := "none"
-		if seqIdx >= 0 {
-			so = fmt.Sprintf("%d %s", seqIdx, seqRes)
+		runtime.GOMAXPROCS(old)
+		// model: the collector under a random schedule
+		sched := randomSchedule(rng, len(seg), procs)
+		cas := fmt.Sprintf("batch %s %d %s %s %s %s", ct, now, chainTok, segTok, sb, sched)
+		c.corr("VerifyHeaders~batch_results", cas, strings.Join(got, ",")+"|fin", e.m.Ask(cas))
+		if strings.Join(got, ",") != want {
+			c.viol("batch-order/"+cas, "VerifyHeaders delivered results differ from the per-index worker results", map[string]string{"case": cas, "got": strings.Join(got, ","), "want": want})
 		}
-		c.Correspond("VerifyHeader(one-by-one)~sequential", casS, so, e.m.Ask(casS))
-		key := ""
-		if bIdx < 0 {
-			key = seg[len(seg)-1].Hash().Hex()
+	}
+	// (c) direct oracle: one-by-one VerifyHeader, inserting accepted headers, reports the same first failure
+	seqCh := ch.clone()
+	seqIdx, seqRes := -1, ""
+	for i, h := range seg {
+		var err error
+		pan, _ := vh.CatchPanic(func() { err = eng.VerifyHeader(seqCh, h, seals[i]) })
+		r := classify(err)
+		if pan {
+			r = "panic"
 		}
-		c.Eval("batch/"+kind, key)
-		c.Count(fmt.Sprintf("batch-first-failure/%s", strings.SplitN(bRes, ":", 2)[0]))
-		if bIdx != seqIdx || bRes != seqRes {
-			rep := map[string]string{"config": nc.name, "kind": kind, "batch": fmt.Sprintf("%d %s", bIdx, bRes), "sequential": so, "chain": chainTok, "headers": segTok, "seals": sb}
-			if kind == "unknown-parent" || kind == "no-grandparent" || kind == "known-prefix" || strings.HasPrefix(kind, "from-genesis") {
-				// the chain reader is not ancestor-closed (or the header is already known): outside the theorem's hypotheses; record, do not fail
-				c.Count("batch-vs-sequential-differs-on-nonclosed-chain")
-			} else {
-				c.Violate("batch-vs-sequential/"+casS, "first failure of VerifyHeaders differs from one-by-one VerifyHeader on a contiguous batch", rep)
-			}
+		if r != "ok" {
+			seqIdx, seqRes = i, r
+			break
+		}
+		seqCh.addHeader(h)
+	}
+	bIdx, bRes := -1, ""
+	for i, r := range workerObs {
+		if r != "ok" {
+			bIdx, bRes = i, r
+			break
+		}
+	}
+	casS := fmt.Sprintf("seq %s %d %s %s %s", ct, now, chainTok, segTok, sb)
+	so := "none"
+	if seqIdx >= 0 {
+		so = fmt.Sprintf("%d %s", seqIdx, seqRes)
+	}
+	c.corr("VerifyHeader(one-by-one)~sequential", casS, so, e.m.Ask(casS))
+	key := ""
+	if bIdx < 0 {
+		key = seg[len(seg)-1].Hash().Hex()
+	}
+	c.eval("batch/"+kind, key)
+	c.count(fmt.Sprintf("batch-first-failure/%s", strings.SplitN(bRes, ":", 2)[0]))
+	if bIdx != seqIdx || bRes != seqRes {
+		rep := map[string]string{"config": cfgName, "kind": kind, "batch": fmt.Sprintf("%d %s", bIdx, bRes), "sequential": so, "chain": chainTok, "headers": segTok, "seals": sb}
+		if kind == "unknown-parent" || kind == "no-grandparent" || kind == "known-prefix" || strings.HasPrefix(kind, "from-genesis") {
+			// the chain reader is not ancestor-closed (or the header is already known): outside the theorem's hypotheses; record, do not fail
+			c.count("batch-vs-sequential-differs-on-nonclosed-chain")
+		} else {
+			c.viol("batch-vs-sequential/"+casS, "first failure of VerifyHeaders differs from one-by-one VerifyHeader on a contiguous batch", rep)
 		}
 	}
 }
@@ -1138,65 +1326,83 @@ func (e *env) uncles() {
 				us = []*types.Header{sibling(len(all) - 2)}
 			}
 		}
-		for _, u := range us {
-			u.Version = cfg.GetBlockVersion(u.Number)
+		e.checkUncles(kind, cfg, all, blocks, hdr, us, c.Rng.Chance(3))
+	}
+}
+
+// checkUncles: VerifyUncles on the block (hdr, us) whose ancestors are all[..] (all[k+1] child of all[k]; blocks[k] the
+// body of all[k] for k >= 1), against the model and against the uncle rules evaluated independently.
+func (e *env) checkUncles(kind string, cfg *params.ChainConfig, all []*types.Header, blocks map[int]*types.Block, hdr *types.Header, us []*types.Header, unsetVersion bool) {
+	c := e.c
+	ch := newChain(cfg)
+	for _, h := range all {
+		ch.addHeader(h)
+	}
+	for _, u := range us {
+		u.Version = cfg.GetBlockVersion(u.Number)
+	}
+	blk := types.NewBlockWithHeader(hdr).WithBody(nil, us)
+	if unsetVersion {
+		// version not set on the block under test
+		h0 := types.CopyHeader(hdr)
+		h0.Version = 0
+		blk = types.NewBlockWithHeader(h0).WithBody(nil, us)
+	}
+	bl := []*types.Block{}
+	for k := len(all) - 1; k >= 1; k-- {
+		ch.addBlock(blocks[k])
+		bl = append(bl, blocks[k])
+	}
+	var err error
+	var obs string
+	var now int64
+	for try := 0; try < 5; try++ {
+		now = time.Now().Unix()
+		pan, _ := vh.CatchPanic(func() { err = e.eng.VerifyUncles(ch, blk) })
+		obs = classify(err)
+		if pan {
+			obs = "panic"
 		}
-		blk := types.NewBlockWithHeader(hdr).WithBody(nil, us)
-		if c.Rng.Chance(3) {
-			// version not set on the block under test
-			h0 := types.CopyHeader(hdr)
-			h0.Version = 0
-			blk = types.NewBlockWithHeader(h0).WithBody(nil, us)
+		if time.Now().Unix() == now {
+			break
 		}
-		bl := []*types.Block{}
-		for k := len(all) - 1; k >= 1; k-- {
-			ch.addBlock(blocks[k])
-			bl = append(bl, blocks[k])
+	}
+	if blk.Version() == 0 {
+		c.Eval("uncles/version-unset", "")
+		if obs != "err version-unset" && !strings.HasPrefix(obs, "err too-many") {
+			c.Violate("uncles-version-unset/"+obs, "VerifyUncles on a block without version", map[string]string{"observed": obs})
 		}
-		var err error
-		var obs string
-		for try := 0; try < 5; try++ {
-			now = time.Now().Unix()
-			pan, _ := vh.CatchPanic(func() { err = e.eng.VerifyUncles(ch, blk) })
-			obs = classify(err)
-			if pan {
-				obs = "panic"
+		return
+	}
+	cas := fmt.Sprintf("uncles %s %d %s %s %s", cfgTok(cfg), now, hdrsTok(ch.order, noSeal), blocksTok(bl, cfg, noSeal), blockTok(blk, cfg, noSeal))
+	key := ""
+	if obs == "ok" && len(us) > 0 {
+		key = blk.Hash().Hex()
+	}
+	c.Eval("uncles/"+kind, key)
+	c.Count("uncles-verdict/" + obs)
+	c.Correspond("VerifyUncles~verify_uncles", cas, obs, e.m.Ask(cas))
+	// direct oracle: the uncle rules of the property statement, evaluated independently
+	v := e.unclesOK(cfg, now, all, blocks, hdr, us)
+	if (obs == "ok") != (v.rule == "") {
+		rep := map[string]string{"case": cas, "observed": obs, "rule_failing": v.rule + ":" + v.fails, "uncle_index": fmt.Sprint(v.idx), "kind": kind}
+		if obs == "ok" && v.rule == "uncle-invalid" {
+			if sig, what := classifyAcceptedInvalid(cfg, v.fails, us[v.idx], v.parent, v.gp, true); sig != "" {
+				c.Violate(sig, "VerifyUncles: "+what, rep)
+				return
 			}
-			if time.Now().Unix() == now {
-				break
+		}
+		if obs == "ok" && v.rule == "not-recent" {
+			// the loop counter the code compares with 15000: block number - 1 - (ancestors walked)
+			counter := int64(hdr.Number.Uint64()) - 1 - int64(v.walked)
+			u := us[v.idx]
+			wl := map[string]uint64{"0x6b818656fb5059ab4dd070e2c2822a7774065090e74ff31515764212c88e2923": 14003, "0x0afd1b00b8e1a49652beeb860e3b58dacc865dd3e3d9d303374ed3ffdfef8eea": 14001}
+			if n, ok := wl[u.ParentHash.Hex()]; ok && n == u.Number.Uint64() && counter <= 15000 {
+				c.Violate("uncles-historic-whitelist-on-any-chain", "below block ~15008 an uncle that is not recent but whose ParentHash equals a hard-coded mainnet hash (with the matching number) makes VerifyUncles return nil at once, on every chain configuration: it and the remaining uncles are not validated", rep)
+				return
 			}
 		}
-		if blk.Version() == 0 {
-			// Block.Hash() of the tested block is never taken in this path; render with the height's version for the model
-			c.Eval("uncles/version-unset", "")
-			if obs != "err version-unset" && !strings.HasPrefix(obs, "err too-many") {
-				c.Violate("uncles-version-unset/"+obs, "VerifyUncles on a block without version", map[string]string{"observed": obs})
-			}
-			continue
-		}
-		cas := fmt.Sprintf("uncles %s %d %s %s %s", cfgTok(cfg), now, hdrsTok(ch.order, noSeal), blocksTok(bl, cfg, noSeal), blockTok(blk, cfg, noSeal))
-		key := ""
-		if obs == "ok" && len(us) > 0 {
-			key = blk.Hash().Hex()
-		}
-		c.Eval("uncles/"+kind, key)
-		c.Count("uncles-verdict/" + obs)
-		c.Correspond("VerifyUncles~verify_uncles", cas, obs, e.m.Ask(cas))
-		// direct oracle: the uncle rules of the property statement, evaluated independently
-		want := e.unclesOK(cfg, now, all, blocks, hdr, us)
-		if (obs == "ok") != (want == "") {
-			rep := map[string]string{"case": cas, "observed": obs, "rule_failing": want, "kind": kind}
-			switch {
-			case obs == "ok" && want == "uncle-invalid:time-future":
-				c.Violate("uncle-future-timestamp-accepted", "a block is accepted with an uncle whose timestamp is more than 15 s ahead of the clock (verifyHeader skips the future check for uncles)", rep)
-			case obs == "ok" && want == "uncle-invalid:difficulty" && us[0].Time.BitLen() > 64:
-				c.Violate("uncle-timestamp-truncated-to-uint64", "a block is accepted with an uncle whose Time >= 2^64: its difficulty is checked against Time mod 2^64", rep)
-			case obs == "ok" && kind == "whitelist-parent" && blk.NumberU64() <= 15008:
-				c.Violate("uncles-historic-whitelist-on-any-chain", "below block ~15008 an uncle whose ParentHash equals a hard-coded mainnet hash (with the matching number) makes VerifyUncles return nil at once, on every chain configuration, skipping the remaining uncles", rep)
-			default:
-				c.Violate("uncle-rules/"+cas, "verdict of VerifyUncles differs from the uncle rules of the property statement", rep)
-			}
-		}
+		c.Violate("uncle-rules/"+cas, "verdict of VerifyUncles differs from the uncle rules of the property statement", rep)
 	}
 }
 
@@ -1207,61 +1413,67 @@ func minInt(a, b int) int {
 	return b
 }
 
+type uncleVerdict struct {
+	rule       string // "" | count | duplicate | is-ancestor | not-recent | uncle-invalid
+	fails      string // for uncle-invalid: the failing header clauses
+	idx        int    // the first uncle that fails
+	parent, gp *types.Header
+	walked     int // ancestors the 7-generation walk found
+}
+
 // unclesOK: count <= max(fork); each uncle recent (parent among the 7 ancestors, not the block's
 // parent), unique (not in the block twice, not included by an ancestor), not an ancestor (nor the
 // block itself) and individually valid.  all = main chain up to the block's parent.
-func (e *env) unclesOK(cfg *params.ChainConfig, now int64, all []*types.Header, blocks map[int]*types.Block, hdr *types.Header, us []*types.Header) string {
+func (e *env) unclesOK(cfg *params.ChainConfig, now int64, all []*types.Header, blocks map[int]*types.Block, hdr *types.Header, us []*types.Header) (v uncleVerdict) {
 	max := 2
 	if active(cfg, 5, hdr.Number) {
 		max = 1
-	}
-	if len(us) > max {
-		return "count"
 	}
 	anc := map[common.Hash]int{}
 	seen := map[common.Hash]bool{hdr.Hash(): true}
 	for g := 1; g <= 7; g++ {
 		k := len(all) - g
-		if k < 0 {
-			break
+		if k < 1 || blocks[k] == nil {
+			break // all[0] has no block body in the fake chain: the ancestor walk stops before it
 		}
 		anc[all[k].Hash()] = k
-		if b := blocks[k]; b != nil {
-			for _, u := range b.Uncles() {
-				u.Version = cfg.GetBlockVersion(u.Number)
-				seen[u.Hash()] = true
-			}
-		} else if k >= 1 {
-			break
-		}
-		if k == 0 {
-			// all[0] has no block body in the fake chain: the ancestor walk of the implementation stops before it
-			delete(anc, all[0].Hash())
-			break
+		v.walked++
+		for _, u := range blocks[k].Uncles() {
+			u.Version = cfg.GetBlockVersion(u.Number)
+			seen[u.Hash()] = true
 		}
 	}
-	for _, u := range us {
+	if len(us) > max {
+		v.rule = "count"
+		return
+	}
+	for i, u := range us {
+		v.idx = i
 		h := u.Hash()
 		if seen[h] {
-			return "duplicate"
+			v.rule = "duplicate"
+			return
 		}
 		seen[h] = true
 		if _, ok := anc[h]; ok {
-			return "is-ancestor"
+			v.rule = "is-ancestor"
+			return
 		}
 		k, ok := anc[u.ParentHash]
 		if !ok || u.ParentHash == hdr.ParentHash {
-			return "not-recent"
+			v.rule = "not-recent"
+			return
 		}
-		var gp *types.Header
+		v.parent, v.gp = all[k], nil
 		if k >= 1 {
-			gp = all[k-1]
+			v.gp = all[k-1]
 		}
-		if f := rulesOK(cfg, now, u, all[k], gp); f != "" {
-			return "uncle-invalid:" + f
+		if f := rulesOK(cfg, now, u, v.parent, v.gp); f != "" {
+			v.rule, v.fails = "uncle-invalid", f
+			return
 		}
 	}
-	return ""
+	return
 }
 
 // ---------------------------------------------------------------- 5. version / IsHF probes
@@ -1291,6 +1503,7 @@ func main() {
 		c.Fatal("FAKEPOWTEST is set: the difficulty algorithm is disabled in this process")
 	}
 	e := &env{c: c, m: m, eng: aquahash.NewFaker()}
+	e.directed()
 	e.versions()
 	e.difficultyLattice()
 	e.headerRules()
